@@ -285,13 +285,34 @@ struct Walk {
     seps: usize,
     entries: usize,
 }
+/// errors by category: node-local documented kinds, undocumented structural ones,
+/// chain, arena
+pub struct Analysis {
+    pub local: Vec<String>,
+    pub other: Vec<String>,
+    pub chain: Vec<String>,
+    pub arena: Vec<String>,
+}
+
 fn check_structure(t: &Map, c: &mut Ctx, hwm: &mut (usize, usize)) {
+    let a = analyze(t, c, Some(hwm), true);
+    for e in a.local.iter().chain(a.other.iter()).chain(a.chain.iter()) {
+        c.viol("C04", e);
+    }
+    for e in &a.arena {
+        c.viol("C06", e);
+    }
+}
+
+fn analyze(t: &Map, c: &mut Ctx, hwm: Option<&mut (usize, usize)>, valid_expected: bool) -> Analysis {
     let (cap, root, la, ba) = t.verif_parts();
     let (ls, lm, lf) = la.verif_raw();
     let (bs, bm, bf) = ba.verif_raw();
     let min = cap / 2;
     let mut w = Walk { leaves: vec![], branches: vec![], depths: vec![], seps: 0, entries: 0 };
     let mut errs: Vec<String> = vec![];
+    let mut other: Vec<String> = vec![];
+    let mut chain_errs: Vec<String> = vec![];
     #[allow(clippy::too_many_arguments)]
     fn go(
         r: &NodeRef<VKey, VVal>,
@@ -307,9 +328,10 @@ fn check_structure(t: &Map, c: &mut Ctx, hwm: &mut (usize, usize)) {
         bm: &[bool],
         w: &mut Walk,
         errs: &mut Vec<String>,
+        other: &mut Vec<String>,
     ) {
         if depth > 64 {
-            errs.push("too deep / cyclic".into());
+            other.push("too deep / cyclic".into());
             return;
         }
         match r {
@@ -323,7 +345,7 @@ fn check_structure(t: &Map, c: &mut Ctx, hwm: &mut (usize, usize)) {
                 w.depths.push(depth);
                 let (lc, ks, vs, _) = ls[i].verif_fields();
                 if lc != cap {
-                    errs.push(format!("leaf {} capacity field {} != {}", i, lc, cap));
+                    other.push(format!("leaf {} capacity field {} != {}", i, lc, cap));
                 }
                 if ks.len() != vs.len() {
                     errs.push(format!("leaf {} keys/values length differ", i));
@@ -362,7 +384,7 @@ fn check_structure(t: &Map, c: &mut Ctx, hwm: &mut (usize, usize)) {
                 w.branches.push(i);
                 let (bc, ks, cs) = bs[i].verif_fields();
                 if bc != cap {
-                    errs.push(format!("branch {} capacity field {} != {}", i, bc, cap));
+                    other.push(format!("branch {} capacity field {} != {}", i, bc, cap));
                 }
                 w.seps += ks.len();
                 if cs.len() != ks.len() + 1 {
@@ -381,31 +403,31 @@ fn check_structure(t: &Map, c: &mut Ctx, hwm: &mut (usize, usize)) {
                     errs.push(format!("non-root branch {} has {} keys < {}", i, ks.len(), min));
                 }
                 if is_root && cs.len() < 2 {
-                    errs.push(format!("branch root {} has {} children", i, cs.len()));
+                    other.push(format!("branch root {} has {} children", i, cs.len()));
                 }
                 for k in ks {
                     if let Some(l) = lo {
                         if k.z < l {
-                            errs.push(format!("branch {} separator {} below bound {}", i, k.z, l));
+                            other.push(format!("branch {} separator {} below bound {}", i, k.z, l));
                         }
                     }
                     if let Some(h) = hi {
                         if k.z >= h {
-                            errs.push(format!("branch {} separator {} not below bound {}", i, k.z, h));
+                            other.push(format!("branch {} separator {} not below bound {}", i, k.z, h));
                         }
                     }
                 }
                 for (p, ch) in cs.iter().enumerate() {
                     let clo = if p == 0 { lo } else { Some(ks[p - 1].z) };
                     let chi = if p == ks.len() { hi } else { Some(ks[p].z) };
-                    go(ch, depth + 1, clo, chi, false, cap, min, ls, lm, bs, bm, w, errs);
+                    go(ch, depth + 1, clo, chi, false, cap, min, ls, lm, bs, bm, w, errs, other);
                 }
             }
         }
     }
-    go(&root, 0, None, None, true, cap, min, ls, lm, bs, bm, &mut w, &mut errs);
+    go(&root, 0, None, None, true, cap, min, ls, lm, bs, bm, &mut w, &mut errs, &mut other);
     if w.depths.iter().any(|d| *d != w.depths[0]) {
-        errs.push(format!("leaves at different depths {:?}", w.depths));
+        other.push(format!("leaves at different depths {:?}", w.depths));
     }
     // chain = in-order leaves, then end
     let mut chain = vec![];
@@ -413,12 +435,12 @@ fn check_structure(t: &Map, c: &mut Ctx, hwm: &mut (usize, usize)) {
     let mut steps = 0;
     while let Some(i) = cur {
         if steps > ls.len() + 1 {
-            errs.push("leaf chain cycles".into());
+            chain_errs.push("leaf chain cycles".into());
             break;
         }
         chain.push(i);
         if !(i < ls.len() && lm[i]) {
-            errs.push(format!("leaf chain reaches unallocated slot {}", i));
+            chain_errs.push(format!("leaf chain reaches unallocated slot {}", i));
             break;
         }
         let (_, _, _, nx) = ls[i].verif_fields();
@@ -426,13 +448,10 @@ fn check_structure(t: &Map, c: &mut Ctx, hwm: &mut (usize, usize)) {
         steps += 1;
     }
     if chain != w.leaves {
-        errs.push(format!("leaf chain {:?} != in-order leaves {:?}", chain, w.leaves));
-    }
-    for e in &errs {
-        c.viol("C04", e);
+        chain_errs.push(format!("leaf chain {:?} != in-order leaves {:?}", chain, w.leaves));
     }
     // validators must accept (C04) -- only when the independent checker found nothing
-    if errs.is_empty() {
+    if valid_expected && errs.is_empty() && other.is_empty() && chain_errs.is_empty() {
         if !t.check_invariants() {
             c.viol("C04", "check_invariants() rejects a structurally valid state");
         }
@@ -513,16 +532,18 @@ fn check_structure(t: &Map, c: &mut Ctx, hwm: &mut (usize, usize)) {
         e6.push("arena stats disagree".into());
     }
     // high-water mark: slot totals never exceed the max number of simultaneously live nodes
-    hwm.0 = hwm.0.max(w.leaves.len());
-    hwm.1 = hwm.1.max(w.branches.len());
-    if ls.len() > hwm.0 {
-        e6.push(format!("leaf arena has {} slots, high-water mark is {}", ls.len(), hwm.0));
+    if let Some(hwm) = hwm {
+        hwm.0 = hwm.0.max(w.leaves.len());
+        hwm.1 = hwm.1.max(w.branches.len());
+        if ls.len() > hwm.0 {
+            e6.push(format!("leaf arena has {} slots, high-water mark is {}", ls.len(), hwm.0));
+        }
+        if bs.len() > hwm.1 {
+            e6.push(format!("branch arena has {} slots, high-water mark is {}", bs.len(), hwm.1));
+        }
     }
-    if bs.len() > hwm.1 {
-        e6.push(format!("branch arena has {} slots, high-water mark is {}", bs.len(), hwm.1));
-    }
-    for e in &e6 {
-        c.viol("C06", e);
+    if !valid_expected {
+        return Analysis { local: errs, other, chain: chain_errs, arena: e6 };
     }
     // C11: instance counts
     let lk = LIVE_K.load(AO::SeqCst) as usize;
@@ -539,6 +560,31 @@ fn check_structure(t: &Map, c: &mut Ctx, hwm: &mut (usize, usize)) {
     if t.len() != w.entries {
         c.viol("C01", &format!("len() = {} but {} entries stored", t.len(), w.entries));
     }
+    Analysis { local: errs, other, chain: chain_errs, arena: e6 }
+}
+
+/// C14 oracle on a damaged map: the independent analysis says which kinds of damage are
+/// present; the validators must reject accordingly.
+fn c14_oracle(t: &Map, c: &mut Ctx) -> (bool, bool) {
+    let a = analyze(t, c, None, false);
+    let must_ci = !a.local.is_empty();
+    let must_detailed = must_ci || !a.chain.is_empty() || a.arena.iter().any(|e| e.contains("reachable"));
+    if must_ci && t.check_invariants() {
+        c.viol("C14", &format!("check_invariants() accepts a damaged map: {}", a.local[0]));
+    }
+    if must_detailed {
+        let why = a.local.first().or(a.chain.first()).or(a.arena.first()).cloned().unwrap_or_default();
+        if t.check_invariants_detailed().is_ok() {
+            c.viol("C14", &format!("check_invariants_detailed() accepts a damaged map: {}", why));
+        }
+        if t.validate().is_ok() {
+            c.viol("C14", &format!("validate() accepts a damaged map: {}", why));
+        }
+        if t.validate_for_operation("verif").is_ok() {
+            c.viol("C14", &format!("validate_for_operation() accepts a damaged map: {}", why));
+        }
+    }
+    (must_ci, must_detailed)
 }
 
 // ---------------------------------------------------------------- oracle: BTreeMap mirror
@@ -910,6 +956,9 @@ fn do_tree_op(st: &mut TreeSt, toks: &[&str], c: &mut Ctx) -> String {
             if val != cid {
                 c.viol("C14", "validate() and check_invariants_detailed() disagree");
             }
+            if st.damaged {
+                c14_oracle(t, c);
+            }
             if !st.damaged && (!ci || cid != "ok" || vfo != "ok") {
                 c.viol("C10", "validator reports an error on a map built through the API");
             }
@@ -982,7 +1031,20 @@ fn do_tree_op(st: &mut TreeSt, toks: &[&str], c: &mut Ctx) -> String {
         }
         "TI" => {
             let (z, id, v) = (p(toks[1]), p(toks[2]) as u64, p(toks[3]));
+            let before = if st.damaged { let mut cc = Ctx { out: String::new(), viol: vec![], hid: String::new(), step: 0 }; dump_s3(t, &mut cc); Some((c14_oracle(t, c), cc.out)) } else { None };
             let r = t.try_insert(VKey::new(z, id), VVal::new(v));
+            if let Some(((_, must), dump)) = &before {
+                if *must {
+                    let mut cc = Ctx { out: String::new(), viol: vec![], hid: String::new(), step: 0 };
+                    dump_s3(t, &mut cc);
+                    if !matches!(r, Err(bplustree::BPlusTreeError::DataIntegrityError(_))) {
+                        c.viol("C14", "try_insert does not refuse a damaged map with a data-integrity error");
+                    }
+                    if cc.out != *dump {
+                        c.viol("C14", "try_insert changed a damaged map");
+                    }
+                }
+            }
             if !st.damaged {
                 let want = match m.get_mut(&z) {
                     Some(e) => {
@@ -1008,7 +1070,20 @@ fn do_tree_op(st: &mut TreeSt, toks: &[&str], c: &mut Ctx) -> String {
         "TR" => {
             let z = p(toks[1]);
             let k = VKey::new(z, 0);
+            let before = if st.damaged { let mut cc = Ctx { out: String::new(), viol: vec![], hid: String::new(), step: 0 }; dump_s3(t, &mut cc); Some((c14_oracle(t, c), cc.out)) } else { None };
             let r = t.try_remove(&k);
+            if let Some(((_, must), dump)) = &before {
+                if *must {
+                    let mut cc = Ctx { out: String::new(), viol: vec![], hid: String::new(), step: 0 };
+                    dump_s3(t, &mut cc);
+                    if !matches!(r, Err(bplustree::BPlusTreeError::DataIntegrityError(_))) {
+                        c.viol("C14", "try_remove does not refuse a damaged map with a data-integrity error");
+                    }
+                    if cc.out != *dump {
+                        c.viol("C14", "try_remove changed a damaged map");
+                    }
+                }
+            }
             if !st.damaged {
                 let want = m.remove(&z).map(|e| e.1);
                 match (&r, want) {
@@ -1067,7 +1142,7 @@ fn do_tree_op(st: &mut TreeSt, toks: &[&str], c: &mut Ctx) -> String {
                 Err(e) => format!("Err({})", e),
             }
         }
-        "DMG" | "HLP" | "RD" => damage::do_damage_op(st, toks, c),
+        "DMG" => damage::do_damage_op(st, toks, c),
         _ => format!("?unparsed {}", toks.join(" ")),
     }
 }
